@@ -7,6 +7,8 @@ import (
 	"strconv"
 	"strings"
 
+	"github.com/pinealctx/neptune/remap"
+
 	"nvharness/lib/corr"
 	"nvharness/lib/rng"
 )
@@ -142,7 +144,233 @@ func fixedCases() []corr.Case {
 			"set u8:1:0 1", "lk u8:1:0", "cont map 0 simple", "cont heap 3 simple", "cont map 3 mod", "cont map 3 simple", "peek u8:1:0", "set bytes:00:0 1", "set u8:1:0", "search 5", "lock semap 3 simple", "lk bytes:00:0", "get u8:1:0"),
 		mk("fixed-container", "cont map 3 simple", "set i8:-1:0 1", "set i16:-1:0 2", "get i8:-1:0", "get i16:-1:0", "exist u8:255:0", "del i8:-1:0", "get i8:-1:0", "del i8:-1:0"),
 	)
+	// the same key through every API of a typed locker group, xxhash routing (single-key and one-element multi-key calls
+	// must meet on the same shard); a wide LRU whose Exist/Peek must not refresh recency
+	for _, rt := range []string{"simple", "xhash"} {
+		k5, k9 := keyToken("i64", "5"), keyToken("i64", "-9")
+		out = append(out,
+			mk("fixed-locks", "locks tklock-i64 73 "+rt, "acq 0 ws "+k5, "acq 1 w "+k5, "rel 0 w "+k5, "rel 1 ws "+k5, "acq 2 rs "+k5+","+k9, "acq 3 r "+k9, "acq 0 w "+k9, "rel 2 r "+k9, "rel 3 rs "+k9, "rel 2 rs "+k5, "rel 0 ws "+k9),
+			mk("fixed-locks", "locks tklock-str 3 "+rt, "acq 0 w "+keyToken("str", "61"), "acq 1 rs "+keyToken("str", "61")+","+keyToken("str", "62"), "rel 0 ws "+keyToken("str", "61"), "rel 1 r "+keyToken("str", "61"), "rel 1 r "+keyToken("str", "62")),
+			mk("fixed-locks", "locks klock 2 "+rt, "acq 0 r "+keyToken("int", "7"), "acq 1 r "+keyToken("int", "7"), "acq 2 w "+keyToken("int", "7"), "rel 0 r "+keyToken("int", "7"), "rel 1 r "+keyToken("int", "7"), "rel 2 w "+keyToken("int", "7")),
+			mk("fixed-locks", "locks semap 73 "+rt, "acq 0 w "+keyToken("str", "6b"), "acq 1 r "+keyToken("str", "6b"), "rel 0 w "+keyToken("str", "6b"), "acq 2 r "+keyToken("str", "6b"), "acq 3 w "+keyToken("str", "6b"), "rel 1 r "+keyToken("str", "6b"), "rel 2 r "+keyToken("str", "6b"), "rel 3 w "+keyToken("str", "6b")),
+		)
+		a, b, c := keyToken("int", "1"), keyToken("int", "2"), keyToken("int", "3")
+		for _, kd := range []string{"lru", "tlru"} {
+			out = append(out, mk("fixed-wide-lru", "wl "+kd+" 1 1 "+rt, "set "+a+" 1 1", "set "+b+" 2 1", "exist "+a, "peek "+a, "set "+c+" 3 1", "get "+a, "get "+b, "exist "+c, "del "+b, "del "+c, "get "+c))
+		}
+	}
 	return out
+}
+
+// ---- generators of the sharded-vs-unsharded classes
+
+var primes = []uint64{1, 2, 3, 73}
+
+// collidingInts returns integer keys that share shards under the given routing (a few shards, several keys each).
+func collidingInts(r *rng.R, n uint64, xhash bool) []int {
+	rm := remap.NewReMap(remap.WithPrime(n))
+	by := map[int][]int{}
+	start := r.Intn(1000)
+	for k := start; k < start+40*int(n) && k < start+3000; k++ {
+		i := rm.SimpleIndex(k)
+		if xhash {
+			i = rm.XHashIndex(k)
+		}
+		if len(by[i]) < 5 {
+			by[i] = append(by[i], k)
+		}
+	}
+	var out []int
+	taken := 0
+	for i := 0; i < int(n) && taken < 2; i++ {
+		if len(by[i]) >= 4 || n <= 3 {
+			out = append(out, by[i]...)
+			taken++
+		}
+	}
+	if len(out) == 0 {
+		for _, ks := range by {
+			out = append(out, ks...)
+			if len(out) > 8 {
+				break
+			}
+		}
+	}
+	return out
+}
+
+func genWideLRU(r *rng.R, m int) corr.Case {
+	n := primes[r.Intn(len(primes))]
+	xhash := r.Bool()
+	rt := "simple"
+	if xhash {
+		rt = "xhash"
+	}
+	kd := r.Pick("lru", "lru", "tlru")
+	per := r.Range(1, 3)
+	capacity := int(n)*(per-1) + r.Intn(int(n))
+	keys := collidingInts(r, n, xhash)
+	lines := []string{fmt.Sprintf("wl %s %d %d %s", kd, capacity, n, rt)}
+	for j := 0; j < m; j++ {
+		k := keyToken("int", strconv.Itoa(keys[r.Intn(len(keys))]))
+		switch x := r.Intn(100); {
+		case x < 38:
+			sz := 1
+			if kd == "lru" {
+				sz = r.PickInt(0, 1, 1, 1, 2, per, per+1)
+			}
+			lines = append(lines, fmt.Sprintf("set %s %d %d", k, j+1, sz))
+		case x < 52:
+			lines = append(lines, "get "+k)
+		case x < 64:
+			lines = append(lines, "peek "+k)
+		case x < 88:
+			lines = append(lines, "exist "+k)
+		default:
+			lines = append(lines, "del "+k)
+		}
+	}
+	return corr.Case{Tag: "wide-" + kd + "-" + rt, Lines: lines}
+}
+
+func genLocks(r *rng.R, m int) corr.Case {
+	n := primes[r.Intn(len(primes))]
+	rt := r.Pick("simple", "xhash")
+	kind := r.Pick("klock", "semap", "tklock-i64", "tklock-i64", "tklock-str")
+	var pool []string
+	switch kind {
+	case "tklock-i64":
+		for _, v := range []int64{int64(r.Intn(1000)), -int64(r.Intn(1000)) - 1, r.I64()} {
+			pool = append(pool, keyToken("i64", strconv.FormatInt(v, 10)))
+		}
+	case "tklock-str":
+		for j := 0; j < 3; j++ {
+			pool = append(pool, keyToken("str", hex.EncodeToString([]byte(fmt.Sprintf("k%d", r.Intn(500))))))
+		}
+	default:
+		pool = []string{keyToken("int", strconv.Itoa(r.Intn(1000))), keyToken("str", hex.EncodeToString([]byte(fmt.Sprintf("u%d", r.Intn(500))))), keyToken("u8", strconv.Itoa(r.Intn(256)))}
+	}
+	if pool[0] == pool[1] || pool[1] == pool[2] || pool[0] == pool[2] {
+		pool = pool[:1]
+	}
+	multiOK := strings.HasPrefix(kind, "tklock")
+	type h struct {
+		t     int
+		k     string
+		write bool
+	}
+	var holds []h
+	var wait *struct {
+		t     int
+		ks    []string
+		write bool
+	}
+	free := func(k string, write bool) bool {
+		for _, x := range holds {
+			if x.k == k && (write || x.write) {
+				return false
+			}
+		}
+		return true
+	}
+	api := func(write, multi bool) string {
+		s := "r"
+		if write {
+			s = "w"
+		}
+		if multi {
+			s += "s"
+		}
+		return s
+	}
+	lines := []string{fmt.Sprintf("locks %s %d %s", kind, n, rt)}
+	for j := 0; j < m; j++ {
+		if (r.Chance(1, 2) || wait != nil) && len(holds) > 0 {
+			// release: one hold, or (typed groups) all holds of a thread in one mode through the multi-key API
+			x := holds[r.Intn(len(holds))]
+			if wait != nil && wait.t == x.t {
+				continue
+			}
+			ks := []string{x.k}
+			multi := multiOK && r.Chance(1, 2)
+			if multi && r.Chance(1, 2) {
+				for _, y := range holds {
+					if y.t == x.t && y.write == x.write && y.k != x.k {
+						ks = append(ks, y.k)
+					}
+				}
+			}
+			lines = append(lines, fmt.Sprintf("rel %d %s %s", x.t, api(x.write, multi), strings.Join(ks, ",")))
+			var rest []h
+			for _, y := range holds {
+				drop := false
+				for _, k := range ks {
+					if y.t == x.t && y.write == x.write && y.k == k {
+						drop = true
+					}
+				}
+				if !drop {
+					rest = append(rest, y)
+				}
+			}
+			holds = rest
+			if wait != nil {
+				ok := true
+				for _, k := range wait.ks {
+					if !free(k, wait.write) {
+						ok = false
+					}
+				}
+				if ok {
+					for _, k := range wait.ks {
+						holds = append(holds, h{wait.t, k, wait.write})
+					}
+					wait = nil
+				}
+			}
+			continue
+		}
+		if wait != nil {
+			continue
+		}
+		t := r.Intn(4)
+		write := r.Chance(1, 2)
+		multi := multiOK && r.Chance(1, 2)
+		ks := []string{pool[r.Intn(len(pool))]}
+		if multi && r.Chance(1, 2) {
+			ks = append([]string{}, pool[:r.Range(1, len(pool))]...)
+		}
+		bad := false
+		for _, x := range holds {
+			for _, k := range ks {
+				if x.t == t && x.k == k {
+					bad = true
+				}
+			}
+		}
+		if bad {
+			continue
+		}
+		lines = append(lines, fmt.Sprintf("acq %d %s %s", t, api(write, multi), strings.Join(ks, ",")))
+		ok := true
+		for _, k := range ks {
+			if !free(k, write) {
+				ok = false
+			}
+		}
+		if ok {
+			for _, k := range ks {
+				holds = append(holds, h{t, k, write})
+			}
+		} else {
+			wait = &struct {
+				t     int
+				ks    []string
+				write bool
+			}{t, ks, write}
+		}
+	}
+	return corr.Case{Tag: "locks-" + kind + "-" + rt, Lines: lines}
 }
 
 func genCase(r *rng.R, tier string, i int) corr.Case {
@@ -153,6 +381,10 @@ func genCase(r *rng.R, tier string, i int) corr.Case {
 	m := r.Range(20, 60)
 	cls := r.Intn(100)
 	switch {
+	case cls >= 100-14: // wide LRU against one plain LRU per shard (small per-shard capacity, colliding keys)
+		return genWideLRU(r, m)
+	case cls >= 100-28: // lock groups against one unsharded locker, all APIs mixed on the same keys
+		return genLocks(r, m)
 	case cls < 35: // routing of keys of every type
 		lines := []string{fmt.Sprintf("remap %d", n)}
 		for j := 0; j < m; j++ {
